@@ -132,8 +132,9 @@ var errNotFn = errors.New("callee is not a function")
 
 // refEval evaluates a reference tree over a store. log receives the arguments of rec(...) calls.
 type refEval struct {
-	Store map[string]MV // the data map including $-locals
-	Log   []MV
+	Store    map[string]MV // the data map including $-locals
+	Log      []MV
+	Assigned map[string]bool // names bound by an assignment so far (when non-nil)
 }
 
 func (e *refEval) eval(n *ref.Node) (MV, error) {
@@ -247,6 +248,9 @@ func (e *refEval) eval(n *ref.Node) (MV, error) {
 				return mvNull, err
 			}
 			e.Store[t.S] = v
+			if e.Assigned != nil {
+				e.Assigned[t.S] = true
+			}
 			return v, nil
 		case ",":
 			if _, err := e.eval(n.Kids[0]); err != nil {
